@@ -33,12 +33,16 @@ def ob_simplify(tier="quick"):
         n = c.choose([True] * 4, "n-constraints")
         cons = []
         saa = SimplificationAvoidanceAnnotation()
+        from vf.contracts import annos as AN
+        uni = [saa, AN.UNIVERSE[1], AN.UNIVERSE[2]]
         for i in range(n):
             node = SN.new_node(("bool",), label="root_c")
-            k = c.choose([True, True], f"annotated{i}")
-            node._annos = (saa,) if k else ()
+            # any set of annotations: the avoidance annotation and/or annotations of other kinds
+            k = c.choose([True] * (1 << len(uni)), f"annotations{i}")
+            node._annos = tuple(a for j, a in enumerate(uni) if k >> j & 1)
             cons.append(node)
         s.constraints = list(cons)
+        c.describers.append(lambda m: {"annotations": [[uni.index(a) for a in x._annos] for x in cons]})
         before = z3.And(*[x.den for x in cons]) if cons else z3.BoolVal(True)
         try:
             r = s.simplify()
@@ -55,10 +59,39 @@ def ob_simplify(tier="quick"):
         c.check("ConstrainedFrontend.simplify/models-unchanged", before == after, "simplify() changed the model set of the constraints")
         c.n_vcs += 1
         for x in cons:
-            if x._annos and not any(y is x for y in after_nodes):
+            if saa in x._annos and not any(y is x for y in after_nodes):
                 c.fail("ConstrainedFrontend.simplify/avoidance-annotation", "a constraint carrying a SimplificationAvoidanceAnnotation was rewritten or dropped", kind="C07")
         if r is not s.constraints:
             c.fail("ConstrainedFrontend.simplify/returns-constraints", "return value is not the constraint list")
         return f"n={n}"
 
-    return explore(body, {"budget_s": 300, "max_depth": 2000, "max_arity": 3, "nested_arity": 2})
+    return explore(body, {"budget_s": 300, "max_depth": 2000, "max_arity": 3, "nested_arity": 2, "replay": replay_simplify})
+
+
+def replay_simplify(failure):
+    """the real ConstrainedFrontend.simplify on real Boolean variables carrying the counter-model's annotation sets"""
+    import claripy
+    import z3 as _z3
+    from claripy.annotation import SimplificationAvoidanceAnnotation
+    from claripy.frontend.constrained_frontend import ConstrainedFrontend
+    from vf.contracts import annos as AN
+    uni = [SimplificationAvoidanceAnnotation(), AN.UNIVERSE[1], AN.UNIVERSE[2]]
+    cons = []
+    for i, idx in enumerate(failure["witness"]["annotations"]):
+        x = claripy.BoolS(f"rc{i}", explicit_name=True)
+        cons.append(x.annotate(*[uni[j] for j in idx]) if idx else x)
+    cf = ConstrainedFrontend()
+    cf.constraints = list(cons)
+    try:
+        cf.simplify()
+    except Exception as e:  # noqa
+        return {"reproduced": True, "text": f"ConstrainedFrontend.simplify raised {type(e).__name__}: {e}"}
+    conv = claripy.backends.z3.convert
+    zs = _z3.Solver(ctx=conv(claripy.true()).ctx)
+    T = conv(claripy.true())
+    zs.add(_z3.And(T, *[conv(x) for x in cons]) != _z3.And(T, *[conv(x) for x in cf.constraints]))
+    r = zs.check()
+    desc = f"constraints {[(repr(x), x.annotations) for x in cons]} -> simplify() -> {cf.constraints!r}"
+    if r == _z3.sat:
+        return {"reproduced": True, "text": f"{desc}: the model set changed, e.g. {zs.model()}"}
+    return {"reproduced": False, "text": f"{desc}: z3 says {r} for a difference"}
